@@ -411,3 +411,33 @@ benign_patch('ben6-r3', ['C13', 'C08', 'C06', 'C09', 'C11'])   # AnyStateSpace d
 benign_patch('ben6-r4', ['C09', 'C10', 'C11', 'C12', 'C08'])   # wrap_to_pi / norm helpers in the states
 benign_patch('ben7-r1', ['C19', 'C20'])                        # JS goal adapter method() helper
 benign_patch('ben7-r2', ['C19', 'C20'])                        # JS RRT-Connect macro arms
+
+
+# ---------------------------------------------------------------- C14 (partial): sampler constructions
+case('c14-so3-no-ball-rejection', ['C14'], ['C14.so3'],
+     (SO3, "            if norm_sq > 1e-9 && norm_sq < 1.0 {", "            if norm_sq > 1e-9 {"))
+case('c14-so3-asymmetric-draw', ['C14'], ['C14.so3'],
+     (SO3, "            let w: f64 = rng.random_range(-1.0..1.0);", "            let w: f64 = rng.random_range(0.0..1.0);"))
+case('c14-so3-reused-draw', ['C14'], ['C14.so3'],
+     (SO3, "            let z: f64 = rng.random_range(-1.0..1.0);", "            let z: f64 = y;"))
+case('c14-so3-norm-misses-component', ['C14'], ['C14.so3'],
+     (SO3, "            let norm_sq = x * x + y * y + z * z + w * w;", "            let norm_sq = x * x + y * y + z * z + z * z;"))
+case('c14-so3-cone-on-other-state', ['C14'], ['C14.so3'],
+     (SO3, "                let distance = self.distance(center_rotation, &random_quat);\n                if distance <= *max_angle {",
+      "                let distance = self.distance(center_rotation, center_rotation);\n                if distance <= *max_angle {"))
+case('c14-so2-folded-draw', ['C14'], ['C14.draw'],
+     (SO2, "            value: rng.random_range(lower..upper),", "            value: rng.random_range(lower..upper).abs(),"))
+case('c14-so2-half-range', ['C14'], ['C14.draw'],
+     (SO2, "            value: rng.random_range(lower..upper),", "            value: rng.random_range(lower..(lower + upper) / 2.0),"))
+case('c14-rv-average-of-two', ['C14'], ['C14.draw'],
+     (RV, "            values.push(rng.random_range(lower..upper));", "            values.push((rng.random_range(lower..upper) + rng.random_range(lower..upper)) / 2.0);"))
+case('c14-rv-wrong-dimension-bounds', ['C14'], ['C14.draw'],
+     (RV, "            let (lower, upper) = self.bounds[i];\n\n            if !lower.is_finite()", "            let (lower, upper) = self.bounds[0];\n\n            if !lower.is_finite()"))
+seeded('seeded-R2C07-thread-rng-cone-c14', ['C14'], ['C14.so3'])
+case('benign-c14-so3-le-one', ['C14', 'C11', 'C06'], [],
+     (SO3, "            if norm_sq > 1e-9 && norm_sq < 1.0 {", "            if norm_sq > 1e-9 && norm_sq <= 1.0 {"))
+case('benign-c14-so3-rename', ['C14', 'C11', 'C06'], [],
+     (SO3, "                let distance = self.distance(center_rotation, &random_quat);\n                if distance <= *max_angle {",
+      "                let deviation = self.distance(center_rotation, &random_quat);\n                if deviation <= *max_angle {"))
+case('benign-c14-rv-inclusive', ['C14', 'C11', 'C12'], [],
+     (RV, "            values.push(rng.random_range(lower..upper));", "            let coordinate = rng.random_range(lower..=upper);\n            values.push(coordinate);"))
